@@ -44,6 +44,7 @@ class Contract:
     self.canary = kw.pop('canary', True)
     self.at_release = dict(kw.pop('at_release', {}))   # lock expr -> clauses that must hold whenever it is released
     self.site_ghost = dict(kw.pop('site_ghost', {}))   # ghost name -> fn(interp, env): its value at a call site
+    self.cond_tests = dict(kw.pop('cond_tests', {}))   # exit ('return' | exception) -> kinds of wake-up condition the callee tested
     self.abandon = kw.pop('abandon', False)          # generator: the consumer may close() it at any yield (GeneratorExit)
     self.when = kw.pop('when', None)                # fn(interp, args, kwargs) -> bool: does this variant describe that call?
     self.variant = kw.pop('variant', '')            # distinguishes several contracts of one target
